@@ -57,7 +57,12 @@ def generate(tier, seed):
         gens = rnd.uniform(2.5, 4.5)
         cyc = float("%.3g" % rnd.uniform(0.8, 2.0))
         n = int(gens * cyc / dt) + 2
-        cases.append({"kind": "lineage", "dt": dt, "n": n, "cycle": cyc,
+        grid = rnd.choice(["dyadic0", "dyadic0", "decimal0", "decimal_late", "dyadic_late"])
+        if grid.startswith("decimal"):
+            dt = rnd.choice([0.1, 0.05, 0.2])        # steps that are not exactly representable
+            n = int(gens * cyc / dt) + 2
+        start = 0.0 if grid.endswith("0") else float(rnd.choice([43200, 20000, 86400, 10 ** 6, 1234]))
+        cases.append({"kind": "lineage", "dt": dt, "n": n, "cycle": cyc, "grid": grid, "start": start,
                       "growth": rnd.choice(["rule_linear", "rule_multiplicative", "rule_ode", "event_linear"]),
                       "division": rnd.choice(["time", "volume", "deltaV", "general", "event"]),
                       "death": rnd.choice([None, None, "rule", "event"]),
@@ -276,7 +281,8 @@ def run_lineage(case):
     M, modes = build_lineage_model(case)
     idx = M.get_species2index()
     dt, n = case["dt"], case["n"]
-    tp = dt * np.arange(n)
+    start = float(case.get("start", 0.0))
+    tp = (start + dt * np.arange(n)) if not case.get("grid", "").startswith("decimal") else np.linspace(start, start + dt * (n - 1), n)
     tag = "%s-division/%s-growth" % (case["division"], case["growth"].split("_")[0])
 
     def bad(key, msg):
@@ -286,7 +292,7 @@ def run_lineage(case):
 
     brandom.py_seed_random(case["seed"])
     x0 = M.get_species_array().copy()
-    cells = [LineageVolumeCellState(v0=1.0, t0=0.0, state=x0.copy()) for _ in range(case["cells"])]
+    cells = [LineageVolumeCellState(v0=1.0, t0=start, state=x0.copy(), time=start) for _ in range(case["cells"])]
     try:
         lin = py_SimulateCellLineage(tp.copy(), initial_cell_states=cells, Model=M, safe=case["safe"])
     except Exception as e:
